@@ -55,7 +55,8 @@ theorem writeTo16_ip16 {ip : IP} (h : IP16 ip) : ∃ b, ip = some b ∧ b.length
 theorem decDUID_typed (typ : Nat) (ht : typ < 65536) (body : Bytes) :
     decDUID (be16 typ ++ body) =
       (let l : Lexer := ⟨body, false⟩
-       if typ = 1 then
+       if body.length < 1 ∨ body.length > 128 then .err
+       else if typ = 1 then
          let (ht, l) := l.read16
          let (t, l) := l.read32
          let (a, l) := l.readAll
@@ -73,39 +74,47 @@ theorem decDUID_typed (typ : Nat) (ht : typ < 65536) (body : Bytes) :
        else .ok (.opaque typ body)) := by
   unfold decDUID
   have hhas : (Lexer.has ⟨be16 typ ++ body, false⟩ 2) = true := by simp [Lexer.has]
-  simp only [Lexer.new, hhas, Bool.not_true, Bool.false_eq_true, if_false, Lexer.read16_append typ ht]
+  simp only [Lexer.new, hhas, Bool.not_true, Bool.false_eq_true, if_false, Lexer.read16_append typ ht,
+    Lexer.len, Bool.or_eq_true, decide_eq_true_eq]
 
 /-- DUIDs read back -/
 theorem decDUID_encDUID (d : DUID) (h : DUIDOK d) : decDUID (encDUID d) = .ok d := by
   cases d with
   | llt ht t a =>
-    obtain ⟨h1, h2⟩ := h
+    obtain ⟨h1, h2, h3⟩ := h
     simp only [encDUID, List.append_assoc]
     rw [decDUID_typed 1 (by decide)]
-    simp only [if_true, Lexer.read16_append ht h1, Lexer.read32_append t h2, readAll_mk, fin_ok]
+    have hl : ¬ ((be16 ht ++ (be32 t ++ a)).length < 1 ∨ (be16 ht ++ (be32 t ++ a)).length > 128) := by
+      simp; omega
+    simp only [hl, if_false, if_true, Lexer.read16_append ht h1, Lexer.read32_append t h2, readAll_mk, fin_ok]
   | en n i =>
-    simp only [DUIDOK] at h
+    obtain ⟨h, h3⟩ := h
     simp only [encDUID, List.append_assoc]
     rw [decDUID_typed 2 (by decide)]
-    simp only [show ¬ ((2 : Nat) = 1) by decide, show ¬ ((2 : Nat) = 3) by decide, if_false, if_true,
+    have hl : ¬ ((be32 n ++ i).length < 1 ∨ (be32 n ++ i).length > 128) := by simp; omega
+    simp only [hl, show ¬ ((2 : Nat) = 1) by decide, show ¬ ((2 : Nat) = 3) by decide, if_false, if_true,
       Lexer.read32_append n h, readAll_mk, fin_ok]
   | ll ht a =>
-    simp only [DUIDOK] at h
+    obtain ⟨h, h3⟩ := h
     simp only [encDUID, List.append_assoc]
     rw [decDUID_typed 3 (by decide)]
-    simp only [show ¬ ((3 : Nat) = 1) by decide, if_false, if_true, Lexer.read16_append ht h,
+    have hl : ¬ ((be16 ht ++ a).length < 1 ∨ (be16 ht ++ a).length > 128) := by simp; omega
+    simp only [hl, show ¬ ((3 : Nat) = 1) by decide, if_false, if_true, Lexer.read16_append ht h,
       readAll_mk, fin_ok]
   | uuid u =>
     simp only [DUIDOK] at h
     simp only [encDUID]
     rw [decDUID_typed 4 (by decide)]
-    simp only [show ¬ ((4 : Nat) = 1) by decide, show ¬ ((4 : Nat) = 3) by decide,
+    have hl : ¬ ((copyInto 16 u).length < 1 ∨ (copyInto 16 u).length > 128) := by
+      simp [copyInto_length]
+    simp only [hl, show ¬ ((4 : Nat) = 1) by decide, show ¬ ((4 : Nat) = 3) by decide,
       show ¬ ((4 : Nat) = 2) by decide, if_false, if_true, copyInto_of_length_eq h, ne_eq, h,
-      not_true_eq_false]
+      not_true_eq_false, show ¬ ((16 : Nat) < 1 ∨ (16 : Nat) > 128) by decide]
   | «opaque» t d =>
-    obtain ⟨h0, h1, h2, h3, h4⟩ := h
+    obtain ⟨h0, h1, h2, h3, h4, h5, h6⟩ := h
     simp only [encDUID]
     rw [decDUID_typed t h0]
-    simp only [h1, h2, h3, h4, if_false]
+    have hl : ¬ (d.length < 1 ∨ d.length > 128) := by omega
+    simp only [hl, h1, h2, h3, h4, if_false]
 
 end Dhcp.V6
